@@ -37,6 +37,8 @@ def parseOp (s : String) : Option Op :=
   | ["W", t] => do pure (.write (← parseText t))
   | ["F", t, f] => do pure (.format (← parseText t) (← parseFmts f))
   | ["T"] => some .token
+  | ["R", r] => do pure (.writeRune (← r.toInt?))
+  | ["Z"] => some .reset
   | ["A", k, f] => do pure (.apply (← k.toNat?) (← parseFmts f))
   | ["S"] => some .shrink
   | _ => none
